@@ -774,7 +774,7 @@ func (h *H) kwDirect() {
 	for _, kl := range []int{16, 24, 32} {
 		key := h.rng.Bytes(kl)
 		blk, _ := aes.NewCipher(key)
-		maxLen := 48
+		maxLen := 64
 		if h.f.Tier == "thorough" {
 			maxLen = 96
 		}
@@ -782,7 +782,8 @@ func (h *H) kwDirect() {
 		for n := 0; n <= maxLen; n++ {
 			lens = append(lens, n)
 		}
-		lens = append(lens, 336, 344, 352, 8*h.rng.Range(43, 200)) // step counter beyond one byte
+		// step counter t = n·j+i on both sides of the one-byte boundary (n = 43 ⇒ 344 bytes) and well beyond
+		lens = append(lens, 256, 336, 344, 352, 512, 1024, 2048, 4096, 8*h.rng.Range(43, 200))
 		for _, n := range lens {
 			data := h.rng.Bytes(n)
 			// Wrap
@@ -929,9 +930,75 @@ func (h *H) kwInteropMonitor(c Case, key, data []byte, o outcome) {
 		return
 	}
 	want := rfc3394Wrap(key, data)
-	if want != nil && !bytesEq(o.a, want) {
+	if want == nil {
+		return
+	}
+	h.res.Hit("kw:interop-checked")
+	if !bytesEq(o.a, want) {
 		c.Expect, c.Got = "ok out="+hx(want), canonOut(o)
-		h.res.Violate("aeskw-interop-rfc3394", "Wrap output differs from RFC 3394 (an independent implementation cannot unwrap it)", c)
+		h.res.Violate("aeskw-interop-mismatch", "Wrap output differs from RFC 3394 (an independent implementation cannot unwrap it)", c)
+		return
+	}
+	// cross-unwrap both ways: the reference unwraps kit's output, kit unwraps the reference's output
+	if p, ok := rfc3394Unwrap(key, o.a); !ok || !bytesEq(p, data) {
+		h.res.Violate("aeskw-interop-mismatch", "an independent RFC 3394 Unwrap does not recover the key data from kit's Wrap output", c)
+	}
+	blk, _ := aes.NewCipher(key)
+	if uo := h.unwrapCall(blk, want); uo.class != "ok" || !bytesEq(uo.a, data) {
+		c.Got = canonOut(uo)
+		h.res.Violate("aeskw-interop-mismatch", "kit's Unwrap does not recover the key data from an independent RFC 3394 Wrap", c)
+	}
+}
+
+// rfc3394Unwrap: RFC 3394 section 2.2.2, index based, independent of dapr/kit.
+func rfc3394Unwrap(kek, c []byte) ([]byte, bool) {
+	blk, err := aes.NewCipher(kek)
+	if err != nil || len(c)%8 != 0 || len(c) < 24 {
+		return nil, false
+	}
+	n := len(c)/8 - 1
+	buf := cp(c)
+	var b [16]byte
+	for j := 5; j >= 0; j-- {
+		for i := n; i >= 1; i-- {
+			copy(b[:8], buf[:8])
+			t := uint64(n*j + i)
+			for k := 0; k < 8; k++ {
+				b[7-k] ^= byte(t >> (8 * uint(k)))
+			}
+			copy(b[8:], buf[8*i:8*i+8])
+			blk.Decrypt(b[:], b[:])
+			copy(buf[:8], b[:8])
+			copy(buf[8*i:], b[8:])
+		}
+	}
+	for i := 0; i < 8; i++ {
+		if buf[i] != 0xA6 {
+			return nil, false
+		}
+	}
+	return buf[8:], true
+}
+
+// kwHuge (thorough): key data of n >= 10923 blocks, so that the step counter exceeds two bytes;
+// judged by the independent Go reference only (the list-based Lean model is too slow at 87 KiB).
+func (h *H) kwHuge() {
+	if h.f.Tier != "thorough" {
+		return
+	}
+	for _, kl := range []int{16, 24, 32} {
+		key := h.rng.Bytes(kl)
+		blk, _ := aes.NewCipher(key)
+		data := h.rng.Bytes(8 * (10923 + h.rng.Intn(50)))
+		wo := guarded(func() outcome {
+			w, err := aeskw.Wrap(blk, cp(data))
+			return outcome{class: classify(err), a: w}
+		})
+		c := Case{Family: "kw", Monitor: "kw-wrap", Key: hx(key), Data: hx(data)}
+		h.res.Count(fmt.Sprintf("kw huge %d %d", kl, len(data)), true)
+		h.res.Hit("kw:huge")
+		h.kwWrapMonitor(c, data, wo)
+		h.kwInteropMonitor(c, key, data, wo)
 	}
 }
 
@@ -1336,6 +1403,9 @@ func (h *H) replay(path string) {
 		if strings.HasPrefix(c.Fn, "Encrypt") {
 			o := callEnc(c.Fn, c.Alg, jk, nonce, data, ad)
 			h.encMonitor(c, s, known, c.Kind == "oct", key, nonce, data, o)
+			if s.family == "kw" {
+				h.kwInteropMonitor(c, key, data, outcome{class: o.class, a: o.a})
+			}
 			h.queue("replay", symLine(c.Fn, c.Alg, c.Kind, key, nonce, data, nil, ad), canonEnc(o), c)
 		} else {
 			o := callDec(c.Fn, c.Alg, jk, nonce, data, tag, ad)
@@ -1363,6 +1433,7 @@ func (h *H) replay(path string) {
 				return outcome{class: classify(err), a: w}
 			})
 			h.kwWrapMonitor(c, data, o)
+			h.kwInteropMonitor(c, key, data, o)
 		} else {
 			o := h.unwrapCall(blk, data)
 			var orig []byte
@@ -1437,6 +1508,7 @@ func main() {
 		h.sizeSweeps()
 		h.junkNames()
 		h.kwDirect()
+		h.kwHuge()
 		h.padDirect()
 		h.cbcHmacDirect()
 	}
